@@ -34,6 +34,11 @@ CLAIMED["C13"] = ("5/C13",
    "Not covered: every numeric error bound, monotonicity, binary-search post-conditions (numeric clauses no static argument in reach bounds). Trusted: math/big Sqrt, go/ssa.",
    "SSA guard/dominance rules with constant evaluation + effect analysis")
 
+CLAIMED["C05"] = ("5/C05",
+   "Static rules over x/poolmanager (and the gamm / concentrated-liquidity swap entries) decide: execution and estimate hops apply the same-direction taker-fee formula to the same denom pair, use the pool's spread factor and chain hop outputs; rule L: every swap entry taking a caller limit returns only values compared with that limit on a failing branch or produced by a callee that received it, inner hops get the neutral limit and only the last hop the caller's; split routes sum legs and compare the sum; the taker-fee step's result depends only on quantities the estimate has (one recorded known finding: reduced-fee whitelist).",
+   "Not covered: value-level equality of routed result and composition across pool types, state-untouched for cosmwasm pools, routes visiting a pool twice. Trusted: PoolModuleI implementations outside gamm/CL, SDK tx atomicity, go/ssa.",
+   "SSA origin-term rules incl. limit-on-returned-value (L), phi-edge case rules, sibling agreement")
+
 NOT_YET = "check not built yet in this revision (static rule set under construction; see DESIGN.md section 5)"
 
 def main():
@@ -71,6 +76,6 @@ def main():
     print("claimed", len(checks), "not_applicable", len(na))
 
 NA = {}
-FIX_COMMITS = []
+FIX_COMMITS = ["7de88560c5", "5379f6c8d1", "4b4b809cc2", "a6f4203039", "d8a222be03"]
 if __name__ == '__main__':
     main()
